@@ -343,7 +343,7 @@ def r4_literal_bases(ctx: Ctx) -> None:
     for test, body in arms:
         from ..match import canon as _cn2
         tt = _cn2(en.node, test)
-        m_ = __import__("re").fullmatch(rf"{p}\\[:2\\] == '(0.)'", tt)
+        m_ = __import__("re").fullmatch(__import__("re").escape(p) + r"\[:2\] == '(0.)'", tt)
         if isinstance(test, ast.Call) and call_name(test) == f"{p}.startswith" and len(body) == 1 and isinstance(body[0], ast.Assign):
             got[const_str(test.args[0])] = const_int(body[0].value)
         elif m_ and len(body) == 1 and isinstance(body[0], ast.Assign):
